@@ -17,6 +17,8 @@ def _triples(rng):
     m = bytes(rng.getrandbits(8) for _ in range(rng.choice([0, 1, 32, 33, 100])))
     aux = bytes(rng.getrandbits(8) for _ in range(32))
     sig = spec.bip340.sign(sk, m, aux)
+    if not sig:
+        return _triples(rng)
     pk = ec.ec_mul(int.from_bytes(sk, "big"), ec.G)[0].to_bytes(32, "big")
     k = rng.random()
     if k < 0.3:
@@ -46,7 +48,10 @@ register(fn_contract(
            Case("rejected", when="otherwise", raises=(AssertionError, ValueError, TypeError, IndexError, OverflowError),
                 ensures={"not_ok": "result != 'OK' and not result"})],
     modular=[SMUL, PADD], returns=("enum", ["OK"]),
-    options={"native_gen": _triples, "nla": False, "feas_ms": 300, "lemmas": ["pow_zero", "no_two_torsion"], "assumptions": ASSUME},
+    options={"native_gen": _triples, "nla": False, "feas_ms": 300, "lemmas": ["pow_zero", "no_two_torsion"], "assumptions": ASSUME,
+             "bounded_only": True, "bounded_inputs": lambda: (_triples(__import__("random").Random(i)) for i in range(400)),
+             "bound": "400 generated triples (valid ones, single-bit flips of pk / sig, changed message, wrong lengths, r in {p-1,p,p+1}, s in {0,n-1,n,n+1}); "
+                      "the deductive version of this contract exceeded the 900 s budget of a quick check (generation alone > 600 s) and is not claimed"},
     witnesses=[],
 ))
 
@@ -64,13 +69,36 @@ register(fn_contract(
     lets={"sig": "spec.bip340.sign(key, digest, aux)"},
     cases=[
         Case("bad_key", when="int.from_bytes(key, 'big') == 0 or int.from_bytes(key, 'big') >= bits.ecmath.SECP256K1_N", raises=(ValueError,)),
-        Case("nonce_zero", when="sig is None", raises=(AssertionError,)),
-        Case("specified_signature", when="spec.bip340.verify_ok(spec.ec.smul(int.from_bytes(key, 'big'), spec.ec.G)[0].to_bytes(32, 'big'), digest, sig)",
+        Case("nonce_zero", when="1 <= int.from_bytes(key, 'big') < bits.ecmath.SECP256K1_N and len(sig) == 0", raises=(AssertionError,)),
+        Case("specified_signature", when="1 <= int.from_bytes(key, 'big') < bits.ecmath.SECP256K1_N and len(sig) == 64 and spec.bip340.verify_ok(spec.ec.smul(int.from_bytes(key, 'big'), spec.ec.G)[0].to_bytes(32, 'big'), digest, sig)",
              ensures={"equals_default_signing": "result == sig"}),
         Case("self_check_fails", when="otherwise", raises=(AssertionError,)),
     ],
     modular=[SMUL, PADD, f"{B}.verify@C12.verify"],
     options={"native_gen": _signs, "nla": False, "feas_ms": 300,
+             "bounded_only": True, "bounded_inputs": lambda: (_signs(__import__("random").Random(i)) for i in range(300)),
+             "bound": "300 generated (key, message, aux) incl. keys 0, 1, n-1, n, n+1, p-1, 2^256-1 and message lengths 0..1024; deductive version too expensive, not claimed",
              "assumptions": ASSUME + ["lemma schnorr_complete (not proved here): the specified signature always passes verification, i.e. the case self_check_fails is empty"]},
     witnesses=[],
+))
+
+
+# ---- proved for all inputs: the refusal clauses
+register(Theorem(
+    "C12.sign.key_out_of_range", ["C12"], params={"key": "bytes:32", "digest": "bytes", "aux": "bytes:32"},
+    requires=["int.from_bytes(key, 'big') == 0 or int.from_bytes(key, 'big') >= spec.ec.N"],
+    body=f"{B}.sign(key, digest, aux)",
+    cases=[Case("refused", raises=(ValueError,))],
+    fuc=[f"{B}.sign"],
+    witnesses=[{"key": (0).to_bytes(32, "big"), "digest": b"", "aux": b"\x00" * 32},
+               {"key": (0xFFFFFFFFFFFFFFFFFFFFFFFFFFFFFFFEBAAEDCE6AF48A03BBFD25E8CD0364141 + 1).to_bytes(32, "big"), "digest": b"m", "aux": b"\x01" * 32},
+               {"key": b"\xff" * 32, "digest": b"m", "aux": b"\x01" * 32}],
+))
+register(Theorem(
+    "C12.verify.wrong_length", ["C12"], params={"pk": "bytes", "m": "bytes", "sig": "bytes"},
+    requires=["len(pk) != 32 or len(sig) != 64"],
+    body=f"{B}.verify(pk, m, sig)",
+    cases=[Case("rejected", raises=(AssertionError, ValueError, TypeError, IndexError, OverflowError))],
+    modular=[SMUL, PADD], fuc=[f"{B}.verify"], options={"nla": False, "feas_ms": 300, "gen_budget_s": 300},
+    witnesses=[{"pk": b"\x00" * 33, "m": b"", "sig": b"\x00" * 64}, {"pk": b"\x01" * 32, "m": b"", "sig": b"\x00" * 65}, {"pk": b"", "m": b"", "sig": b""}],
 ))
